@@ -83,6 +83,7 @@ func createFile(info types.SegmentInfo, wf types.WritableFile, bufPool *sync.Poo
 func recoverFile(info types.SegmentInfo, wf types.WritableFile, bufPool *sync.Pool) (*Writer, error) {
 	r, err := openReader(info, wf, bufPool)
 	if err != nil {
+		wf.Close()
 		return nil, err
 	}
 	w := &Writer{
@@ -93,6 +94,8 @@ func recoverFile(info types.SegmentInfo, wf types.WritableFile, bufPool *sync.Po
 	r.tail = w
 
 	if err := w.recoverTail(); err != nil {
+		// The caller gets no writer to close, don't leak the file.
+		wf.Close()
 		return nil, err
 	}
 
